@@ -84,6 +84,28 @@ def analyse():
     return names, handled, defaults, produced
 
 
+def strip_lists():
+    src = strip_comments(common.read(os.path.join(common.SRC, "mmd.c")))
+    src = re.sub(r"//[^\n]*", "", src)
+    body = fn_body(src, "strip_line_tokens_from_block")
+    k = body.find("while (l != NULL)")
+    if k < 0:
+        raise TranslateError("strip_line_tokens_from_block: the loop over lines was not found (shape changed)")
+    loop = body[k:]
+    d = loop.rfind("default:")
+    if d < 0:
+        raise TranslateError("strip_line_tokens_from_block: no default branch")
+    diss = sorted(set(re.findall(r"\bcase\s+(LINE_[A-Z0-9_]+)\s*:", loop[:d])))
+    py = strip_comments(common.read(os.path.join(common.SRC, "parser.y")))
+    retyped = sorted(set(re.findall(r"->type\s*=\s*(LINE_[A-Z0-9_]+)", py)))
+    m = re.search(r"\nvoid mmd_assign_line_type\(", src)
+    if not m:
+        raise TranslateError("mmd_assign_line_type not found")
+    abody = src[m.start():src.find("\n}\n", m.start())]
+    assigned = sorted(set(re.findall(r"line->type\s*=\s*(LINE_[A-Z0-9_]+)", abody)))
+    return diss, retyped, assigned
+
+
 def emit(names, handled, defaults, produced):
     idx = {n: i for i, n in enumerate(names)}
     def lst(s):
@@ -108,6 +130,15 @@ def emit(names, handled, defaults, produced):
         o.append("  | %d => handled_%s ++ allowed_%s%s" % (i, w, w, (" ++ handled_%s" % d) if d else ""))
     o.append("  | _ => [] end%nat.")
     o.append("Definition n_writers : nat := %d." % len(ws))
+    # line kinds that strip_line_tokens_from_block dissolves into their parent block (the case labels that lead to the
+    # 'Add contents of line to parent block' branch, i.e. every case label of its line switch before 'default:'), and the
+    # line kinds the grammar actions and the line classifier assign
+    diss, retyped, assigned = strip_lists()
+    q = lambda l: "[" + "; ".join('"%s"' % x for x in l) + "]%string"
+    o.append("From Coq Require Import String.")
+    o.append("Definition strip_dissolved : list string := %s." % q(diss))
+    o.append("Definition grammar_retyped : list string := %s." % q(retyped))
+    o.append("Definition classifier_assigned : list string := %s." % q(assigned))
     o.append("(* names: %s *)" % " ".join("%d=%s" % (i, n) for i, n in enumerate(names)))
     return "\n".join(o) + "\n"
 
